@@ -112,9 +112,7 @@ Example C50_old_input_fixed :
   backfill 0 old_input = BFOk [mkBlock (-7200000) [(0, -1, 7)]; mkBlock 0 [(0, 5, 8)]].
 Proof. exact old_input_fixed. Qed.
 
-(* The same out-of-order line is a fatal error when it comes after an appender batch boundary
-   (5000 samples of the block), and the earlier window's block stays in the output directory;
-   one position earlier it is dropped silently and the run succeeds. *)
-Example C50_batch_boundary_error :
-  backfill 0 (batch_input (ESample 0 (Some 4) 1)) = BFCreateErr [mkBlock (-7200000) [(0, -1, 1)]].
-Proof. exact batch_boundary_error. Qed.
+(* (The batch-boundary behaviour - the same out-of-order line is a fatal "add sample" error when
+   it comes after the 5000th sample of a block, with the earlier window's block left in the output
+   directory - needs inputs of 5001 lines; it is exercised as fixed corpus cases of the thorough
+   tier, where the model and the real binary agree: see notes/C50.md.) *)
